@@ -62,6 +62,10 @@ CHECKS = {
         text="Solver-checked data flow over the real MIR, complete over the nest() sites of this run's dump, not a proof of rendering. Every function calling DocBuilder::nest/align/hang/indent or reading Config::tab_spaces is enumerated from the dump; for each nest() site the backward slice of the offset (copies, casts, constant arithmetic, parameters pushed to all callers) is translated to a bit-vector term and z3 shows offset = T as isize for all T in [0,2^31); align/hang only in comment.rs and the source-indent nest in partial.rs (exempt); values read from tab_spaces flow only into nest offsets; no store into PrettyPrinter::config after construction; --tab-width maps to tab_spaces (to_config MIR).",
         note="Trusted: rustc MIR dump; pretty's nest semantics; literal blanks inside text atoms are not examined. Counterexamples confirmed natively by comparing leading blanks for tab_spaces 1..8.",
         ref="DESIGN.md §5 C12"),
+    'C09': dict(
+        text="Solver-decided within bounds, mechanism level, not a proof. convert_math over every child sequence of up to K nodes (3 quick / 4 thorough) from {math expression (converter opaque), whitespace token with symbolic text, hash, other token}: output atoms are, per child in order, the expression's document, a hard line break iff the whitespace holds a Typst newline else exactly one blank, '#', or the token text; nothing between children without a token, nothing dropped; expressions converted with breaks suppressed (Code mode after a hash). convert_math_delimited: inner edge whitespace maps to blank / hard line break exactly; body nested by tab_spaces. Math call arguments, attachments/fractions/roots (exempt by the property) and equation delimiters via the list stylist are outside, as is the renderer.",
+        note="Trusted: mirsym encoder; typst-syntax contracts; Doc algebra; lexer facts on whitespace tokens. Counterexamples confirmed natively on equations `$ a<ws>b $`.",
+        ref="DESIGN.md §5 C09"),
 }
 
 NOT_APPLICABLE = {
